@@ -9,7 +9,7 @@ use std::{
     fmt,
     hash::Hash,
     ops,
-    sync::{Arc, PoisonError, TryLockError, TryLockResult, Weak},
+    sync::{PoisonError, TryLockError, TryLockResult},
 };
 
 use readlock::{SharedReadGuard, SharedReadLock};
@@ -20,7 +20,12 @@ use readlock_tokio::{
 
 #[cfg(feature = "async-lock")]
 use crate::AsyncLock;
-use crate::{lock::Lock, state::ObservableState, ObservableReadGuard, Subscriber, SyncLock};
+use crate::{
+    lock::Lock,
+    state::ObservableState,
+    sync_impl::{Arc, Weak},
+    ObservableReadGuard, Subscriber, SyncLock,
+};
 
 /// A value whose changes will be broadcast to subscribers.
 ///
@@ -46,7 +51,7 @@ impl<T> SharedObservable<T> {
     /// Create a new `SharedObservable` with the given initial value.
     #[must_use]
     pub fn new(value: T) -> Self {
-        Self::from_inner(Arc::new(std::sync::RwLock::new(ObservableState::new(value))))
+        Self::from_inner(Arc::new(crate::sync_impl::RwLock::new(ObservableState::new(value))))
     }
 
     /// Obtain a new subscriber.
